@@ -12,7 +12,7 @@ package util
 //@   requires wfl(self)
 //@   ensures n == uint16(size(self))
 //@   ensures size(self) == old(size(self)) && (old(wf(self)) ==> wf(self))
-//@ method MarshalBinary() (data, err) [C06 C13 C01 C02]
+//@ method MarshalBinary() (data, err) [C06 C13 C01 C02 C03]
 //@   requires wf(self) && size(self) <= 65535
 //@   ensures err == nil && len(data) == old(size(self))
 //@   ensures size(self) == old(size(self)) && wf(self) && wfl(self)
